@@ -12,7 +12,7 @@ CHECKS = {
   text="design level: for every placement (with duplication) the recovery procedure equals the merge of all placed updates and is idempotent, and the as-built WAL filter reproduces its counterexample; implementation level: every exported layout and thousands of random ones are built with the real SegmentWriter/CheckpointWriter/ManifestManager/WalRotator, and recover(), recover_with_wal() and apply_recovered_state (1x, 3x) must equal the merge computed by TLC",
   note="update tables of 3-5 updates for the exhaustive part; kinds fixed per key; checkpoint coverage of skipped segments assumed consistent"),
  "C12": dict(
-  technique="TLA+ spec (Streaming.tla) at object-store-call granularity model-checked with TLC (store image = crash image, all fault outcomes); TLC-exported workloads replayed on the real StreamingPersistence/Compactor over a scripted ObjectStore with a real recovery after every mutating call; traces validated by TLC (StreamTrace.tla)",
+  technique="TLA+ spec (Streaming.tla) at object-store-call granularity model-checked with TLC (store image = crash image, all fault outcomes); TLC-exported workloads replayed on the real StreamingPersistence/Compactor over a scripted ObjectStore with a real recovery after every mutating call; traces validated by TLC (StreamTrace.tla); the second write buffer (write_buffer.rs) with overlapping flushes judged by WbufTrace.tla (Streaming.tla's buffer rule); the persistence pipeline of integration.rs judged by StreamTrace's call-level rules",
   text="design level: ManifestSound, ConfirmedRecoverable, RecoveryStable, NothingSilentlyDropped hold in every state of the ideal protocol with a fault anywhere, and the as-built switches reproduce their counterexamples; implementation level: every idle state of the sequential model becomes a workload run on the real code, the real RecoveryManager::recover runs on a copy of the image after EVERY mutating store call, and TLC requires that recovery succeeds, the manifest is sound, the recovered state absorbs every confirmed delta and invents nothing, and a failed flush keeps its buffer",
   note="fault model: put stores all / nothing / a prefix; rename atomic, possibly applied-but-reported-failed; scripted store implements the public ObjectStore trait; <=1 fault per exported workload, random workloads with faults in several operations"),
  "C13": dict(
@@ -22,7 +22,7 @@ CHECKS = {
  "C01": dict(
   technique="TLA+ spec (RedisKeyspace.tla: ~60 commands, expiry, i64 arithmetic on decimal digit sequences) model-checked with TLC; TLC-exported command/tick sequences rendered to RESP, parsed by the real parser and run on the real CommandExecutor; wide random traces validated step by step by TLC (KsTrace.tla)",
   text="the specification is the oracle for every reply and for the full visible keyspace (key, type, value, deadline) after every step; TLC-exported sequences cover every keyspace reachable in the MC command universe, random sequences cover i64/index limits, binary and empty strings, option permutations and clock jumps to exactly a deadline and one millisecond before",
-  note="Redis 7 semantics as written in the spec ([doc]/[src] tags); two loose rules; errors compared by class; UTF-8 keys/fields/members; quarter-integer scores"),
+  note="Redis 7 semantics as written in the spec ([doc]/[src] tags); loose rules (two version-dependent ones; float syntaxes other than exact quarters for INCRBYFLOAT / SORT); two open findings (GETSET, SORT) reported as KNOWN-FINDING; errors compared by class; UTF-8 keys/fields/members; quarter-integer scores"),
  "C17": dict(
   technique="TLA+ spec (RedisKeyspace.tla) model-checked with TLC for ErrorChangesNothing / ReadOnlyChangesNothing; failure-biased traces of the real executor validated by TLC (KsTrace.tla) with model-independent rules on the recorded keyspaces",
   text="for every recorded step whose reply is an error or whose command the code's is_read_only() table classifies as read-only, the recorded visible keyspace before and after (keys, types, values, deadlines at that instant) must be equal, and the code's read-only table must be contained in the model's; 35% of commands come from a pool of out-of-model failures (bad arity/options, stubs, bit/float/scan commands, failing scripts)",
@@ -34,15 +34,15 @@ CHECKS = {
  "C04": dict(
   technique="TLA+ spec (Connection.tla read loop / collectors / sequential loop) model-checked with TLC; TLC-exported wires and read deliveries replayed on the REAL OptimizedConnectionHandler (verif hook, one segment per read); decoded output judged by TLC (ConnTrace.tla) against sequential RedisKeyspace!Do",
   text="design level: OneReplyEachInOrder for all wires of <= 4 frames and all deliveries, with the latent as-built collector counterexample; implementation level: all 7212 exported (wire, delivery) scenarios and thousands of random pipelines (1-9 commands, thresholds 1/2/3/6, min buffer 0-200 bytes, cuts down to single bytes, 1 and 4 shards) run through the real handler; TLC requires one reply per command, in order, equal to the sequential run, an error for a malformed frame, and the sequential keyspace at the end",
-  note="wall clock: no TTL-dependent commands; frames after a malformed one are not judged"),
+  note="wall clock: no TTL-dependent commands; bytes after a malformed frame in the same read are not judged, commands in later reads are owed replies unless the handler closed the connection; short writes by the transport are part of the input space"),
  "C05": dict(
   technique="TLA+ transaction rules (ConnTrace.tla StepA/TxnFold on RedisKeyspace!Do); scripts with a second client writing in every gap run through TWO real connection handlers; every reply and the final keyspace judged by TLC",
   text="2500 (thorough 30000) scripts: watched key of four types, bodies with runtime failures, unknown commands, wrong arity, nested MULTI, WATCH inside MULTI, EXEC and DISCARD, client B writing same value / other value / delete / type-specific change / change-then-revert in every gap; TLC checks QUEUED/EXECABORT/nil rules, EXEC = sequential fold, and that aborted or discarded transactions leave the keyspace untouched",
   note="writes between A's commands only; value-based WATCH; one open finding reported as KNOWN-FINDING"),
  "C06": dict(
-  technique="TLA+ spec (Replication.tla: executor + CRDT state + clock per node, reordering/duplicating/delaying network, anti-entropy) model-checked with TLC; TLC-exported step sequences replayed on real ReplicatedShardActors with the harness as network; traces validated by TLC (ReplTrace.tla)",
+  technique="TLA+ spec (Replication.tla: executor + CRDT state + clock per node, reordering/duplicating/delaying network, anti-entropy) model-checked with TLC; TLC-exported step sequences replayed on real ReplicatedShardActors with the harness as network; traces validated by TLC (ReplTrace.tla); node-level multi-key commands on real ReplicatedShardedStates judged by ReplTrace!MultiKeyVerdict",
   text="design level: ServedIsState at every step and Converged at quiescence on 3 nodes for register and hash command sets; each repaired defect and the open type-change finding are reproduced by an as-built switch; implementation level: every exported configuration and thousands of random runs (2-4 nodes, all listed commands, duplicates, delays, anti-entropy) are replayed on the real actors and TLC compares replication state and served value of EVERY node after EVERY step, and agreement whenever nothing is in flight",
-  note="one key, full replication; TTL replies not compared (expiry compared in the replication state); INCR/APPEND local outcome taken from the log"),
+  note="one key per actor-level run (several keys in the node-level multi-key family), full replication; TTL replies not compared (expiry compared in the replication state); INCR/APPEND local outcome taken from the log"),
  "C08": dict(
   technique="TLA+ spec (NodeClock.tla) model-checked with TLC over writes/remote deltas/checkpoints/crash/recovery; exported lives replayed on a real ReplicatedShardedState; traces validated by TLC (NodeClockTrace.tla)",
   text="design level: StampAboveSeen, NeverRepeats, NewestWins, ClockDominates over all interleavings of local writes, remote stamps, checkpoints and up to 2 crashes, with the as-built counterexample; implementation level: every exported life and thousands of random ones run on a real node (16 shard actors, snapshot_state/apply_recovered_state as restart) and TLC checks every issued stamp against everything the running node has observed for the key",
@@ -64,7 +64,7 @@ CHECKS = {
   text="frames: every command name in three letter cases x arities 0..6 x filler classes, every option-keyword word up to length 3 (thorough 4) for 29 command families, non-bulk elements, i64 limits in each numeric position, generator frames (26k quick / 120k thorough) - all outcomes (Debug rendering or error text) must agree on all paths and respect the arity table; scripts: 3k/30k programs after random prefixes - keyspace equal, reply = Conv(direct reply), a script stopped by an error keeps the effects up to it; plus every TLC-exported keyspace scenario and 300/2000 random 40-step runs with each command issued through redis.call/pcall judged by the Redis model",
   note="RESP<->Lua conversion as pinned by the repository's tests (null -> nil); GETSET model conformance tolerated here (C01 finding); Lua 5.4 table.unpack"),
  "C18": dict(
-  technique="TLA+ spec (AntiEntropy.tla) model-checked with TLC incl. liveness (EventuallyInSync under weak fairness); TLC-exported state pairs rebuilt as real replica states on keys colliding in real digest buckets; real StateDigest and run_anti_entropy_sync results judged by TLC (AeTrace.tla)",
+  technique="TLA+ spec (AntiEntropy.tla) model-checked with TLC incl. liveness (EventuallyInSync under weak fairness); TLC-exported state pairs rebuilt as real replica states on keys colliding in real digest buckets; real StateDigest, AntiEntropyManager digest exchanges and run_anti_entropy_sync rounds judged by TLC (AeTrace.tla: DigestVerdict, MgrVerdict, SyncVerdict with the one-exchange rule)",
   text="design level: digests as injective functions of bucket content, sync rounds under a key limit with a rotating sender are live for Limit 1 and 2, the fixed-prefix sender is not; implementation level: for every exported pair and thousands of random histories (independent maps, shuffled merge orders, hashes with equal outer stamps, tombstones) differs_from / divergent_buckets must equal the truth TLC computes from the observable projection, and every real sync round must move keys only to the merge and end merged within the bound",
   note="hash collisions not modelled; 2 replicas; limits 1-3; kinds fixed per key"),
  "C19": dict(
@@ -81,11 +81,11 @@ CHECKS = {
   text="TLC checks the three laws, in the observable projection, on every configuration of 3 replicas of one key reachable within the step bound; one operation sequence per distinct configuration is replayed on the real code and TLC validates every step (refinement of Merge) and the laws on the results of the real merge for all pairs and triples; random longer runs over all six CRDT kinds are validated the same way",
   note="bounded: 3 replicas, 1 key, <=3 (quick) / <=4 (thorough) operations for the exhaustive part; Obs() is the stated observable projection; type-mismatch triples are judged by the laws only"),
  "C09": dict(
-  technique="TLA+ spec (Wal.tla) of rotator + group-commit actor model-checked with TLC (crash = invariant in every state, all fault outcomes); TLC-enumerated scenario space replayed on the real spawn_wal_actor over a scripted WalStore; I/O-level traces validated by TLC (WalTrace.tla)",
+  technique="TLA+ spec (Wal.tla) of rotator + group-commit actor model-checked with TLC (crash = invariant in every state, all fault outcomes); TLC-enumerated scenario space replayed on the real spawn_wal_actor over a scripted WalStore; I/O-level traces validated by TLC (WalTrace.tla); WalPolicy.tla (the actor under every fsync policy with SyncTick / TruncateUpTo / Shutdown in the mailbox) model-checked and trace-validated (WalPolicyTrace.tla) - its always-mode obligations count here",
   text="design level: every interleaving of <=4-5 writers, rotation points, batch limits and <=2-3 faults satisfies AckedIsDurable in every state, and both as-built switches reproduce their counterexamples; implementation level: every scenario of the exported space (burst splits x capacity x batch x fault placement) is run on the real actor, the real recovery is run on the crash image after every I/O call, and TLC accepts an ack only where the entry lies in a synced prefix",
-  note="fault model: crash keeps exactly the fsynced prefix of each file; torn append = prefix + error; scripted store implements the public WalStore trait; paused tokio time; truncation excluded"),
+  note="fault model: crash keeps exactly the fsynced prefix of each file; torn append = prefix + error; scripted store implements the public WalStore trait; paused tokio time; an entry removed by a requested TruncateUpTo (stamp <= threshold) is outside C09; the everysec / no policies ride along as an extension that never changes the verdict"),
  "C10": dict(
-  technique="TLA+ spec (WalFormat.tla): region-level reader model-checked with TLC over every damage placement; damaged real images read by the real recovery and judged case by case by TLC (WalFormatTrace.tla)",
+  technique="TLA+ spec (WalFormat.tla): region-level reader model-checked with TLC over every damage placement; damaged real images read by the real recovery and judged case by case by TLC (WalFormatTrace.tla); the truncation rule also through the real WAL actor (WalPolicy.tla / WalPolicyTrace.tla) and while one file cannot be read",
   text="every cut length and every byte position (bit flips, bursts, zero windows, zero extensions) of small real images, and every stamp layout/threshold for truncation, with the expected outcome computed by TLC from the layout arithmetic of the specification",
   note="ideal-checksum assumption (single-bit and <=32-bit bursts); layouts of 1-3 files x 1-4 entries; entry identity = data+stamp+checksum"),
 }
